@@ -229,9 +229,9 @@ Section S.
       + intros q Hq. rewrite G. unfold under in Hq. destruct (strip dst q); [discriminate|reflexivity].
       + unfold getH, add_H. simpl. apply nth_app_new.
       + reflexivity.
-    - exfalso. unfold copytree in Ec. rewrite Hsrc, Hu1 in Ec. unfold makedirs_new in Ec.
-      unfold dst in Ec. rewrite (makedirs_from_leaf_new wsd (w_fs w) [] _) in Ec; [discriminate| |exact Hn].
-      intros k Hk. simpl. apply Hchain. lia.
+    - exfalso. unfold copytree in Ec. rewrite Hsrc in Ec. unfold makedirs_new in Ec.
+      unfold dst in Ec. rewrite (makedirs_from_leaf_new wsd (w_fs w) [] _) in Ec; [|intros k Hk; simpl; apply Hchain; lia|exact Hn].
+      fold dst in Ec. rewrite Hu1 in Ec. discriminate.
   Qed.
 
   (* ---------------------------------------------------------------- set_ids *)
